@@ -200,7 +200,7 @@ def _has_union(t):
     if t.kind == "array":
         return _has_union(t.elem)
     if t.kind == "struct":
-        return any(mt is not None and _has_union(mt) for mn, mt in t.members if mn is not None)
+        return any(mt is not None and _has_union(mt) for mn, mt in t.members if mn is not None or (mt is not None and mt.anon))
     return False
 
 
